@@ -4,6 +4,7 @@ import (
 	"fmt"
 	"html/template"
 	"regexp"
+	"sort"
 	"strconv"
 	"strings"
 	"time"
@@ -263,24 +264,42 @@ func reload(b bool) string {
 }
 
 func renderMap(data map[string]any, key, oldkey string, example string) string {
-	var mapValues map[string]string
+	mapValues := make(map[string]string)
 	comment := ""
-	if value, ok := data[key]; ok {
-		mapValues = value.(map[string]string)
-	} else {
-		values := strings.Split(example, ",")
-		mapValues = make(map[string]string)
-		for _, v := range values {
-			kv := strings.SplitN(v, ":", 2) // split on the first colon only
-			mapValues[kv[0]] = kv[1]
-			comment = "# "
+	if value, ok := _fetch(data, oldkey); ok {
+		// a decoded config file holds a table as map[string]any
+		switch m := value.(type) {
+		case map[string]string:
+			for k, v := range m {
+				mapValues[k] = v
+			}
+		case map[string]any:
+			for k, v := range m {
+				mapValues[k] = fmt.Sprintf("%v", v)
+			}
 		}
 	}
-	var output []string
-	for k, v := range mapValues {
-		output = append(output, fmt.Sprintf("%s %s: %s", comment, k, v))
+	if len(mapValues) == 0 {
+		comment = "# "
+		for _, v := range strings.Split(example, ",") {
+			kv := strings.SplitN(v, ":", 2) // split on the first colon only
+			mapValues[kv[0]] = kv[1]
+		}
 	}
-	return "# " + key + ":\n      " + strings.Join(output, "\n      ")
+	keys := make([]string, 0, len(mapValues))
+	for k := range mapValues {
+		keys = append(keys, k)
+	}
+	sort.Strings(keys)
+	var output []string
+	for _, k := range keys {
+		if comment == "" {
+			output = append(output, fmt.Sprintf("%s: %s", yamlf(k), yamlf(mapValues[k])))
+		} else {
+			output = append(output, fmt.Sprintf("%s %s: %s", comment, k, mapValues[k]))
+		}
+	}
+	return comment + key + ":\n      " + strings.Join(output, "\n      ")
 }
 
 func renderStringarray(data map[string]any, key, oldkey string, example string) string {
